@@ -35,7 +35,7 @@ RULE = ("histories of 0-12 operations over 2-4 shared operands (results are reus
         "from real-constructor diagrams (0-5 bars per degree, ties, duplicates, zero-length bars, trailing inf bar) and "
         "from arbitrary critical points (1-4 depths, sign changes, repeated points, single-point depths); grid landscapes "
         "from real-constructor diagrams and from arbitrary value arrays on shared and on deliberately different grids; "
-        "coordinates lattice/half/dyadic(2^-20..2^20)/decimal/uniform; scalars ints, dyadic, 1/3, 2^+-20, 0, -0.0, "
+        "coordinates lattice/half/dyadic(2^-30..2^20)/half-integers at offset 2^17/decimal/uniform; scalars ints, dyadic, 1/3, 2^+-20, 0, -0.0, "
         "non-numbers; malformed operands mixed in (other hom_deg, other grid, empty depth list, empty landscape, "
         "coefficient lists of wrong length). non-trivial = a history with at least one successful binary operation or "
         "snap/lc/avg; distinct by digest of (leaf specs, ops)")
@@ -564,14 +564,17 @@ def gen_scalar(ctx, exact, div=False, bad_p=0.08, np_ok=False):
 def pick_mode(ctx):
     """coordinate mode of a history and whether every float operation on it is expected to be exact"""
     r = ctx.rng
-    mode = r.choice(["lattice", "lattice", "half", "dyadic1", "dec", "unif", "dyadic"])
-    return mode, mode in ("lattice", "half", "dyadic1")
+    mode = r.choice(["lattice", "lattice", "half", "dyadic1", "dyadic1", "far", "dec", "unif", "dyadic"])
+    return mode, mode in ("lattice", "half", "dyadic1", "far")
 
 
 def coord(ctx, mode, e=None):
     r = ctx.rng
     if mode == "dyadic1":
         return r.randint(-64, 64) / 8.0 * 2.0 ** e
+    if mode == "far":
+        # half-integers at a large offset (exact in floats): distinct abscissae that agree to 5-6 significant digits
+        return 131072.0 + r.randint(0, 12) / 2.0
     return ctx.gen.coord(mode)
 
 
@@ -670,7 +673,7 @@ def gen_cps_leaf(ctx, mode, e, hom_deg, exact, nonzero_ends=False):
 def gen_exact_history(ctx, nonzero_ends=False):
     r = ctx.rng
     mode, exact = pick_mode(ctx)
-    e = r.choice([-20, -3, 0, 0, 3, 20])
+    e = r.choice([-30, -20, -3, 0, 0, 3, 20])
     nleaves = r.randint(2, 4)
     leaves = []
     for i in range(nleaves):
@@ -754,7 +757,7 @@ def gen_gdgm_leaf(ctx, mode, e, hom_deg, grid, short=False):
 def gen_grid_history(ctx):
     r = ctx.rng
     mode, exact = pick_mode(ctx)
-    e = r.choice([-20, -3, 0, 0, 3, 20])
+    e = r.choice([-30, -20, -3, 0, 0, 3, 20])
     g0 = gen_grid_params(ctx, mode, e, exact)
     nleaves = r.randint(2, 4)
     leaves = []
